@@ -6,7 +6,10 @@
 (*   r.kind    flip | truncate | extend | delete                           *)
 (*   r.check_err  check --read-data reported an error                      *)
 (*   r.outcomes   for every snapshot read back (LoadBlob walk, sampled     *)
-(*                restore and dump): "fail" | "same" | "different"         *)
+(*                restore and dump): "fail" | "same" | "different" |       *)
+(*                "different-unreported" (restore ended with "There were N *)
+(*                errors" but an item whose content differs from the       *)
+(*                backup was not among the items it named)                 *)
 (* Every generated file is needed by a snapshot (packs, index, snapshot,   *)
 (* config) or needed to open the repository (key), so check must complain. *)
 (***************************************************************************)
@@ -26,5 +29,6 @@ MustReport(r) ==
 RecOK(r) ==
   /\ MustReport(r) => r.check_err                  \* the damage is reported
   /\ "different" \notin SetOf(r.outcomes)          \* never other plaintext than what was backed up
-  /\ SetOf(r.outcomes) \subseteq {"fail", "same", "different"}
+  /\ "different-unreported" \notin SetOf(r.outcomes)   \* restore fails FOR THE AFFECTED DATA: every item it got wrong is named
+  /\ SetOf(r.outcomes) \subseteq {"fail", "same", "different", "different-unreported"}
 =============================================================================
